@@ -112,6 +112,12 @@ func unitKey(k string, dirs, jnames map[string]string) []string {
 }
 
 func keySig(v string) string {
+	if strings.Contains(v, "circular fork sources") {
+		return "C11:nest:split-over-mapped-output:circular-fork-sources"
+	}
+	if strings.Contains(v, "panic: invalid type for merge") {
+		return "C11:nest:split-over-mapped-output:panic-invalid-type-for-merge"
+	}
 	words := strings.Fields(v)
 	for i, w := range words {
 		if strings.ContainsAny(w, "/{[\"%0123456789") || strings.HasPrefix(w, "ID.") {
@@ -162,7 +168,9 @@ func routeOracle(res *Result) (viol []string, probes int) {
 		seenRun[key] = i
 	}
 	for i, m := range mds {
-		if m.RunFile == "" {
+		if m.RunFile == "" || m.ForkId == "" {
+			// a fork without an id stands for "no element at all" (every
+			// inner collection empty): it is disabled and never runs a job
 			continue
 		}
 		base := path.Base(m.RunFile)
@@ -225,7 +233,11 @@ func evalKeys(d progen.KeyParams) (viol []string, res *Result, probes int, note 
 				return
 			}
 			if r.State != "complete" {
-				v = append(v, "pipestance ended "+r.State+": "+r.FatalFq+": "+firstLine(r.FatalLog))
+				msg := "pipestance ended " + r.State + ": " + r.FatalFq + ": " + firstLine(r.FatalLog)
+				if strings.Contains(r.FatalLog, "circular fork sources") {
+					msg += " [circular fork sources]"
+				}
+				v = append(v, msg)
 				return
 			}
 			v = append(v, CheckDataflow(ref, r)...)
@@ -281,7 +293,11 @@ func KeyCheck() {
 			viol = unitKey(*c.Key, dirs, jn)
 		}
 		for _, v := range viol {
-			r.Report(ev.Finding{Sig: keySig(v), What: v, Case: c})
+			sg := keySig(v)
+			if c.Params != nil && literalNullJob(*c.Params, v) {
+				sg = "C11:nest:literal-null-element-runs-a-job"
+			}
+			r.Report(ev.Finding{Sig: sg, What: v, Case: c})
 		}
 		r.Finish()
 	}
@@ -361,7 +377,11 @@ func KeyCheck() {
 		}
 		for _, v := range viol {
 			d := d
-			r.Report(ev.Finding{Sig: keySig(v), What: d.String() + ": " + v, Case: KeyCase{Params: &d}})
+			sg := keySig(v)
+			if literalNullJob(d, v) {
+				sg = "C11:nest:literal-null-element-runs-a-job"
+			}
+			r.Report(ev.Finding{Sig: sg, What: d.String() + ": " + v, Case: KeyCase{Params: &d}})
 		}
 	}
 	r.Done()
